@@ -44,6 +44,7 @@ struct SwapSim {
         bool recovered = false;
     };
     std::vector<S> sw;
+    std::set<int> aliased_failed;
     SwapSim(const Plan &p_, Result &r_) : p(p_), r(r_) {}
     void fresh32(uint8_t *out) { uint8_t b[16]; for (int i = 0; i < 8; i++) { b[i] = (uint8_t)(inseed >> (8 * i)); b[8 + i] = (uint8_t)(draw >> (8 * i)); } draw++; ref::sha256(b, 16, out); }
     const Op *find(const char *kname, int swap) const { for (const Op &o : p.ops) if (o.k == kname && o.arg(0) == swap) return &o; return nullptr; }
@@ -89,6 +90,11 @@ struct SwapSim {
         // the encryptor's own artefact must verify for her key (completeness), and only for the right keys / message
         int v = L01(secp256k1_ecdsa_adaptor_verify(ctx, ob.data(), &w.X, w.msg, &Y));
         r.cmp();
+        if (!v && ctl.want_alias) {
+            // Overlapping input and output buffers are not a documented guarantee of the API: observed, never required.
+            r.probe("aliased_encrypt_output_does_not_verify"); w.a_failed = true; w.a_adaptor.clear(); aliased_failed.insert(s); return;
+        }
+        if (ctl.want_alias) r.probe("aliased_encrypt_ok");
         if (!v) { r.violate("C14", "completeness", "secp256k1_ecdsa_adaptor_verify", "a freshly made adaptor signature does not verify (msg " + hex(w.msg, 32) + ")"); return; }
         Msg o; o.kind = K_ADAPTOR; o.sid = s; o.from = 0; o.to = 1; o.bytes = ob; net.send(o);
     }
@@ -202,7 +208,7 @@ struct SwapSim {
         if (capped) r.violate("C14", "step_cap", "run", "step cap hit");
         // liveness: a swap untouched by any fault completes
         for (int i = 0; i < k && r.ok; i++) {
-            bool touched = net.fault_sids.count(i) || find("noncefault", i) || find("keyfault", i);   // aliasing is not a fault: the swap must still complete
+            bool touched = net.fault_sids.count(i) || find("noncefault", i) || find("keyfault", i) || aliased_failed.count(i);
             r.cmp();
             if (!touched && !sw[i].recovered) r.violate("C14", "liveness", "protocol", "swap " + std::to_string(i) + " had no fault injected but did not complete");
         }
